@@ -205,8 +205,12 @@ def run(run, tier, seed, replay=None):
         run.count("respelling and splices together", n3, n3)
         run.count("braces and brackets respelled in whole programs, diagnostics (code, line) compared", n4, n4)
         if progs:
-            new = respell(progs[0][1], lexcorr.impl_lex(progs[0][1], progs[0][0])["tokens"], random.Random(seed), di, tri, p=1.0)
+            b0 = lexcorr.impl_lex(progs[0][1], progs[0][0])
+            new = respell(progs[0][1], b0["tokens"], random.Random(seed), di, tri, p=1.0) if b0["kind"] == "ok" else None
             run.sample({"respelled_program_excerpt": (new or progs[0][1])[900:1300]})
+        if progs and n1 + n2 == 0:
+            # nothing could be edited: the implementation's tokenizer could not be observed on any program
+            found |= run.violation("correspondence-lexer-unobservable", {"what": "no program of the family could be tokenised with raw spans by the implementation", "first": repr(lexcorr.impl_lex(progs[0][1], progs[0][0]))[:300]})
     run.cov["c12_histogram"] = hist
     common.broken_obligations(run, b, found)
     disc = sum(1 for t in b.theorems if t not in b.open_assumptions) if b.make_ok else 0
